@@ -142,8 +142,12 @@ def run_fault(case, chooser):
             r = rig.ev(0, "PWD")
             if [c for c, _ in (r or [])] != ["257"]:
                 problems.append({"kind": "followup-pwd", "codes": [c for c, _ in (r or [])], **sig_base})
-            rig.ev(0, "EPSV")
-            rig.ev(0, "@data")
+            if not (case.get("reuse_port") and s0.pasv_port is not None):
+                rig.ev(0, "EPSV")
+            # (reuse_port: no new PASV/EPSV - the data connection made earlier if the failed command never took it,
+            # else a new one to the passive port the session already has)
+            if not (case.get("reuse_port") and s0.data is not None and not s0.data.eof and not s0.data.received):
+                rig.ev(0, "@data")
             r = rig.ev(0, "RETR /o")
             codes = [c for c, _ in (r or [])]
             if case["mode"] == "single":
@@ -270,6 +274,11 @@ def build_items(tier):
                         continue
                     case = {"script": script, "backend": backend, "mode": "single", "k": k, "second": second,
                             "solo": solos[backend]}
+                    items.append((case, bound, kinds))
+                # the follow-up transfer uses a fresh data connection to the *same* passive port
+                if backend == "memory" and script in corpus.TRANSFER_SCRIPTS + ["stor-over", "appe-new", "list-file", "mlsd-d"]:
+                    case = {"script": script, "backend": backend, "mode": "single", "k": k, "second": False,
+                            "reuse_port": True}
                     items.append((case, bound, kinds))
                 # a backend whose close() returns a value (the API leaves that open)
                 if backend == "memory" and script in corpus.TRANSFER_SCRIPTS + ["stor-over", "appe-new", "abor-mid-stor"]:
